@@ -3,6 +3,7 @@
 // (the harness defines time()).  Mode "e2e": events come from the library's
 // parameter ports and the undo messages are dispatched back into them.
 #include <climits>
+#include <cmath>
 #include "vh.h"
 #include "refosc.h"
 #include <rtosc/rtosc.h>
@@ -68,6 +69,8 @@ static void run_model_case(Rng &r)
     // distinct addresses; some are proper prefixes of others, lengths cover every residue mod 4
     static const char *POOL[] = {"/p0/x", "/p1/volume", "/p2/x", "/p3/volume", "/vol", "/vol1", "/vol10", "/vol100", "/a/b", "/a/bc", "/a/b/cde", "/a/b/cdef", "/x", "/part0/kit", "/part0/kit1"};
     std::vector<std::string> pool(POOL, POOL + 15);
+    // addresses whose set-message still fits the 256-byte replay buffer (up to 247 characters)
+    if(r.chance(0.15)) { for(int L : {223, 224, 236, 247}) { std::string a = "/long"; while((int)a.size() < L) a += "/component_" + std::to_string(a.size()); a.resize(L); if(a.back() == '/') a.back() = 'x'; pool.push_back(a); } count("addresses.long_pool"); }
     for(int i = 0; i < naddr; ++i) { size_t k = r.below(pool.size()); addrs.push_back(pool[k]); pool.erase(pool.begin() + (long)k); types.push_back("ifc"[r.below(3)]); }
     for(auto &x : addrs) for(auto &y : addrs) if(x != y && y.compare(0, x.size(), x) == 0) { count("addresses.one_prefix_of_another"); break; }
     std::map<std::string, uint32_t> cur;
@@ -85,7 +88,7 @@ static void run_model_case(Rng &r)
             else if(t == 'c') newv = (uint32_t)r.range(0, 127);
             else newv = (uint32_t)r.range(-1000, 1000);
             cur[addrs[ai]] = newv;
-            char buf[256];
+            char buf[512];
             rtosc_arg_t a[3];
             a[0].s = addrs[ai].c_str(); a[1].i = (int32_t)oldv; a[2].i = (int32_t)newv;
             char ty[4] = {'s', t, t, 0};
@@ -204,7 +207,9 @@ static void run_e2e_case(Rng &r)
                     else { static const char *SYM[] = {"a", "b", "c", "d"}; rtosc_message(buf, sizeof buf, "/mode", r.chance(0.5) ? "S" : "s", SYM[r.below(4)]); count("e2e.option_set_by_symbol"); }   // the same port through its symbolic entry
                     break;
             case 3: rtosc_message(buf, sizeof buf, fmt("/arr%d", (int)r.below(4)).c_str(), "i", (int)r.range(0, 100)); break;
-            case 4: rtosc_message(buf, sizeof buf, "/cut", "f", (float)r.range(-40, 40) / 4); break;
+            case 4: { float v = (float)r.range(-40, 40) / 4;
+                      if(r.chance(0.25)) { v = nextafterf(s.cut, r.chance(0.5) ? INFINITY : -INFINITY); count("e2e.float_one_ulp_step"); }   // the smallest change there is
+                      rtosc_message(buf, sizeof buf, "/cut", "f", v); break; }
             default: g_now += (time_t)r.below(4); hist += " +t"; continue;
         }
         hist += std::string(" ") + buf + fmt("=%d", rtosc_type(buf, 0) == 'f' ? (int)(rtosc_argument(buf, 0).f * 4) : rtosc_argument(buf, 0).i);
